@@ -166,7 +166,19 @@ def nGroupArgs (op : String) : Nat :=
       return toArray (SO3.composition (memoV (SO3.composition (SO3.rot_x (sc x 0)) (SO3.rot_y (sc x 1)))) (SO3.rot_z (sc x 2))))
   | "conv_se3_iso_glue" =>
     some (do need x 20; return toArray (Conv.se3_ofIsometryGlue (matOfArray 4 4 x) (ofArray 4 x 16)))
-  | _ => none
+  | _ =>
+    -- `conv_of_euler_a<i1><i2><i3>`: rot_{i1}(e0) rot_{i2}(e1) rot_{i3}(e2) for ANY axis convention (seed C17e)
+    if op.startsWith "conv_of_euler_a" then
+      match (op.toList.drop 15).map (fun c => c.toNat - 48) with
+      | [a, b, c] =>
+        some (do
+          need x 3
+          let ra : Fin 3 := ⟨a % 3, Nat.mod_lt _ (by decide)⟩
+          let rb : Fin 3 := ⟨b % 3, Nat.mod_lt _ (by decide)⟩
+          let rc : Fin 3 := ⟨c % 3, Nat.mod_lt _ (by decide)⟩
+          return toArray (SO3.composition (memoV (SO3.composition (rotAxis ra (sc x 0)) (rotAxis rb (sc x 1)))) (rotAxis rc (sc x 2))))
+      | _ => none
+    else none
 
 /-! ### audit ops on exact rationals -/
 
